@@ -878,6 +878,9 @@ def _patched_open(file, mode="r", buffering=-1, encoding=None, errors=None, newl
     w = WORLD
     if w is None:
         return _real["open"](file, mode, buffering, encoding, errors, newline, closefd, opener)
+    if encoding == "locale":
+        # what pathlib's read_text()/write_text() and io.text_encoding() pass for "no encoding given"
+        encoding = None
     if isinstance(file, int) and file in w.fds:
         return w.sim_fd_open(file, mode, buffering, encoding, errors, newline, closefd)
     is_sim, p = w.route(file)
@@ -1246,6 +1249,22 @@ def install_seams():
             _real[name + suffix] = getattr(time, name + suffix)
             setattr(time, name + suffix, _sim_clock(name + suffix, scale))
     tempfile._name_sequence = _SimTempNames()
+    # the locale's encoding, asked for explicitly, is the simulated process's
+    import locale as _locale
+
+    def _task_encoding(name):
+        real = getattr(_locale, name)
+
+        def f(*a, **k):
+            w = WORLD
+            if w is not None and w.current is not None:
+                return {"utf-8": "UTF-8", "ascii": "ANSI_X3.4-1968", "latin-1": "ISO-8859-1"}.get(
+                    w.current.task.locale, w.current.task.locale)
+            return real(*a, **k)
+        return f
+    for name in ("getpreferredencoding", "getencoding"):
+        if hasattr(_locale, name):
+            setattr(_locale, name, _task_encoding(name))
     try:
         import uuid
         uuid._generate_time_safe = None       # uuid1(): the Python path (simulated clock), not libuuid
